@@ -86,6 +86,10 @@ func (r C15Rule) text() string {
 	case "wpanic":
 		// assigns the local, then fails in a construct that has no recover of its own
 		fmt.Fprintf(&b, "  %s = uniq(@name)\n  FX(@name)\n  if %s {\n    %s = 0\n  }\n  E(@name)\n", x, x, x)
+	case "wretfail":
+		// assigns the local and reaches its return, but the returned value (read from an
+		// unexported field) cannot be handed out: the rule fails after its statements ended
+		fmt.Fprintf(&b, "  %s = uniq(@name)\n  FX(@name)\n  hv = O.hid\n  return hv\n", x)
 	case "werror":
 		// assigns the local, then fails with an ordinary error
 		fmt.Fprintf(&b, "  %s = uniq(@name)\n  FX(@name)\n  %s = %s / 0\n  E(@name)\n", x, x, x)
@@ -115,7 +119,7 @@ func init() {
 		Gen: func(t *rapid.T) interface{} {
 			c := &C15Case{QuiesMs: 2}
 			n := uni(t, "nrules", 2, 7)
-			kinds := []string{"writer", "writer", "writer", "reader", "reader", "reader", "cond", "cond", "sharedw", "sharedr", "wpanic", "wpanic", "werror", "ranger", "ranger", "rangeinj", "seeinj", "objwriter", "objwriter"}
+			kinds := []string{"writer", "writer", "writer", "reader", "reader", "reader", "cond", "cond", "sharedw", "sharedr", "wpanic", "wpanic", "werror", "wretfail", "ranger", "ranger", "rangeinj", "seeinj", "objwriter", "objwriter"}
 			for i := 0; i < n; i++ {
 				c.Rules = append(c.Rules, C15Rule{Name: fmt.Sprintf("r%d", i), Sal: int64(uni(t, fmt.Sprintf("sal%d", i), -2, 4)),
 					Kind: kinds[uni(t, fmt.Sprintf("kind%d", i), 0, len(kinds)-1)], Local: []string{"x", "x", "y"}[uni(t, fmt.Sprintf("local%d", i), 0, 2)]})
@@ -256,7 +260,7 @@ func checkC15(ci interface{}, x *Ctx) {
 		}
 		mrules := make([]models.Rule, len(c.Rules))
 		for i, r := range c.Rules {
-			mrules[i] = models.Rule{Name: r.Name, Sal: r.Sal, Fails: r.Kind == "reader" || r.Kind == "wpanic" || r.Kind == "werror" || (r.Kind == "cond" && !cc.Flag)}
+			mrules[i] = models.Rule{Name: r.Name, Sal: r.Sal, Fails: r.Kind == "reader" || r.Kind == "wpanic" || r.Kind == "werror" || r.Kind == "wretfail" || (r.Kind == "cond" && !cc.Flag)}
 		}
 		results := make([]gx.Result, par)
 		var wg sync.WaitGroup
@@ -314,7 +318,7 @@ func checkC15(ci interface{}, x *Ctx) {
 		for _, e := range trace {
 			switch e.Kind {
 			case "U":
-				if k := byName[e.Name].Kind; k != "sharedw" && k != "wpanic" && k != "werror" {
+				if k := byName[e.Name].Kind; k != "sharedw" && k != "wpanic" && k != "werror" && k != "wretfail" {
 					drawn[e.Name] = append(drawn[e.Name], e.Arg)
 				}
 			case "C":
